@@ -58,6 +58,11 @@ def generate(seed, tier):
                 body.append(["del_term", "k", u"k%03d" % wrng.choice(committed_keys)])
             if wrng.random() < 0.08:
                 body.insert(wrng.randrange(len(body) + 1), ["nested_attempt"])
+            fk = random.Random("%s/fork/%d/%d" % (seed, wi, ti))
+            if storage_kind == "file" and fk.random() < 0.1:
+                # the application forks a helper process while its writer is open (a worker pool, a
+                # subprocess): the helper inherits the descriptor table and lives on for a while
+                body.insert(fk.randrange(len(body) + 1), ["app_fork", fk.choice((0.05, 0.5, 3.0))])
             c = wrng.random()
             if c < 0.7:
                 end = ["commit", {"merge": wrng.choice(("none", "none", "default", "optimize"))}]
@@ -224,7 +229,7 @@ class FrontWriter(object):
         if self.kind == "async" and passthrough:
             first = acquired_at
         last = s.last_mut.get(committer.id, first)
-        hold = [first, k.seq, self.committed_gen, self.name, t0, max(last, first), k.time()]
+        hold = [first, k.seq, self.committed_gen, self.name, t0, max(last, first), k.time(), a]
         s.all_holds.append(hold)
         if self.committed_gen is not None:
             s.ret.setdefault(self.committed_gen, k.seq)
@@ -261,6 +266,29 @@ class AppWriter(SchedWriter):
         if tx.get("think"):
             s.k.sleep(tx["think"])      # the application does something else for a while
         return SchedWriter.run_tx(self, tx)
+
+
+def _app_step(self, op):
+    if op[0] == "app_fork":
+        s = self.s
+        k = s.k
+        k.event("step", "app_fork")
+        parent = k.current.proc
+        child = k.new_proc("helper")
+        child.cwd = parent.cwd
+        s.os.fork_fds(parent, child)
+        life = op[1]
+
+        def helper():
+            k.sleep(life)
+            s.os.exit_proc(child)
+        k.spawn(helper, "helper:%s" % self.name, proc=child)
+        s.count("app_forks")
+        return
+    return SchedWriter.step(self, op)
+
+
+AppWriter.step = _app_step
 
 
 def _plain(s, a):
@@ -300,6 +328,14 @@ def check_history(s, writers):
             if not others:
                 raise Violation("lockerror_only_when_held", "%s: ix.writer(timeout=%s) over events [%d,%d] raised LockError while nobody else held the write lock"
                                 % (att["actor"], att["timeout"], a, b))
+            # ... and only while some other writer is open: the lock is given back by commit(), cancel()
+            # and a failing with-block. A writer counts as open from the moment its ix.writer() call
+            # began (it takes the lock inside that call) until its commit/cancel/__exit__ returned.
+            open_others = [h for h in s.all_holds if (h[3] != att["actor"] or att.get("nested"))
+                           and (h[7] if len(h) > 7 else h[0]) <= b and (h[1] is None or h[1] >= a)]
+            if not open_others:
+                raise Violation("lock_released", "%s: ix.writer(timeout=%s) over events [%d,%d] raised LockError although no other writer was open at any moment of the attempt (the lock outlived the writer that took it)"
+                                % (att["actor"], att["timeout"], a, b), sig="lock_outlives_writer")
             el = att["t1"] - att["t0"]
             if el + 1e-9 < att["timeout"]:
                 raise Violation("lockerror_after_timeout", "%s: LockError after %.4f simulated seconds, requested timeout %s"
